@@ -13,7 +13,7 @@ META = dict(
     functions=['lazy_dataset.parallel_utils.single_thread_prefetch', 'lazy_dataset.parallel_utils.lazy_parallel_map (every back end)', 'lazy_dataset.core.PrefetchDataset.__init__'],
     stubs=_e2.STUBS,
     assumptions=_e2.ASSUMPTIONS + ['consumer pauses are schedules in which the consumer is never chosen while it sits at the yield'],
-    bounds=dict(quick='n<=2 (single thread, pools) with buffer<=2, workers<=2: pulled-delivered <= B+2 and started-delivered <= B in every state of every schedule; '
+    bounds=dict(quick='n<=2 (single thread, pools) with buffer<=2, workers<=2, thread pool also at exactly n=3, buffer=2, workers=2, and every prefix of <= 44 steps of the thread pool with n<=5, buffer=2, workers=2: pulled-delivered <= B+2 and started-delivered <= B in every state of every schedule; '
                       'plus single thread n<=6, buffer 1..3: every execution prefix of <= 34 steps',
                 thorough='single thread n<=3 and n<=4, buffer<=3; pools n<=3, buffer<=2, workers<=2; thread pool n<=3, buffer<=3, workers<=3; prefixes: single thread n<=8 buffer 1..4 K=44, thread pool n<=5 buffer 1..3 K=44'),
     outside=['dataset lengths above the bounds (complete executions: n<=2/3; execution prefixes of <= K steps: n<=6/8 with buffer 1..3/4); no induction over n is claimed'],
